@@ -797,6 +797,10 @@ class Interp:
                 e = arr.elems[off.c]
                 if isinstance(e, VInt):
                     return e
+            if isinstance(arr, VVec) and arr.data is not None and off.is_const() and 0 <= off.c < len(arr.data):
+                e = arr.data[off.c]
+                if isinstance(e, VInt):
+                    return e
             return VInt(Lin.atom(reg_atom(("v", ("mb", fresh_id())), 0, 255)))
         if mut or origin[0] == "m":
             return VInt(Lin.atom(reg_atom(("v", ("mb", fresh_id())), 0, 255)))
@@ -814,6 +818,13 @@ class Interp:
                     self.store(st, cur, VArray(tuple(es), arr.n, arr.key, arr.ety))
                 else:
                     self.store(st, cur, VArray(None, arr.n, ("ah", fresh_id()), arr.ety))
+            elif isinstance(arr, VVec) and arr.data is not None:
+                if off.is_const() and 0 <= off.c < len(arr.data):
+                    d = list(arr.data)
+                    d[off.c] = val
+                    self.store(st, cur, arr.with_data(tuple(d)))
+                else:
+                    self.store(st, cur, arr.with_data(None))
 
     def havoc_region(self, st, r, lo=None, n=None):
         """content of region r (or its sub-range [lo,lo+n) relative to region start) becomes unknown"""
@@ -849,6 +860,8 @@ class Interp:
                         self.store(st, cur, VArray(tuple(es), arr.n, arr.key, arr.ety))
                         return
                 self.store(st, cur, VArray(None, arr.n, ("ah", fresh_id()), arr.ety))
+            elif isinstance(arr, VVec) and arr.data is not None:
+                self.store(st, cur, arr.with_data(None))
 
     def region_bytes(self, st, r, n):
         """list of n byte values at the start of region r"""
@@ -1014,11 +1027,29 @@ class Interp:
                 return r
             return Lin.atom(reg_atom(("wrap", r.key(), ty), lo_t, hi_t))
         if op == "BitAnd":
-            return self.bitand(a, b, ty)
+            return self.bitand(a, b, ty, st)
         if op == "BitOr":
             ma, mb = mask_of_lin(a), mask_of_lin(b)
             if ma is not None and mb is not None and (ma & mb) == 0:
                 return a + b
+            if st is not None and self.opts.get("bitfields", False):
+                ra, rb = self.refined_mask(st, a, ma), self.refined_mask(st, b, mb)
+                if ra is not None and rb is not None and (ra & rb) == 0:
+                    return a + b
+                from .bits import fields_of
+                if fields_of(st, a + b) is not None and not (a.is_const() or b.is_const()) and \
+                        not (set(a.t) & set(b.t)):
+                    return a + b
+                # one operand below 2^k, the other a non-negative multiple of 2^k
+                for x, y, my in ((a, b, rb), (b, a, ra)):
+                    if my is None:
+                        continue
+                    k = my.bit_length()
+                    p2 = 1 << k
+                    if all(v % p2 == 0 for v in x.t.values()) and x.c % p2 == 0:
+                        xlo, _ = static_bounds(x)
+                        if (xlo is not None and xlo >= 0) or st.entails(x):
+                            return a + b
             if a.is_const() and b.is_const():
                 return Lin.const(a.c | b.c)
             alo, ahi = static_bounds(a)
@@ -1048,6 +1079,11 @@ class Interp:
                 if st is not None and hi_t is not None and st.entails(a) and \
                         st.entails(Lin.const(hi_t) - a.scale(1 << k)):
                     return a.scale(1 << k)
+                if st is not None and self.opts.get("bitfields", False) and hi_t is not None:
+                    from .bits import and_fields
+                    r = and_fields(self, st, a.scale(1 << k), (1 << bits) - 1, ty)
+                    if r is not None:
+                        return r
                 ma = mask_of_lin(a)
                 m = ((ma << k) & ((1 << bits) - 1)) if ma is not None else None
                 return Lin.atom(reg_atom(("shl", a.key(), k, bits), 0, m if m is not None else hi_t, m))
@@ -1058,11 +1094,25 @@ class Interp:
                 if a.is_const():
                     return Lin.const(a.c >> k)
                 alo, ahi = static_bounds(a)
+                if (alo is None or alo < 0) and ahi is not None and st is not None and \
+                        self.opts.get("bitfields", False) and st.entails(a):
+                    alo = 0
                 if alo is not None and alo >= 0 and ahi is not None:
                     # exact division when all coefficients are multiples of 2^k and no carry issues
                     if all(v % (1 << k) == 0 for v in a.t.values()) and a.c % (1 << k) == 0 and all(
                             v > 0 for v in a.t.values()):
                         return Lin({x: v >> k for x, v in a.t.items()}, a.c >> k)
+                    if st is not None and self.opts.get("bitfields", False):
+                        from .bits import shr_fields, shr_split
+                        r = shr_fields(self, st, a, k, ty)
+                        if r is None and (len(a.t) > 1 or a.c):
+                            r = shr_split(self, st, a, k, ty)
+                        if r is not None:
+                            return r
+                    sa = a.single_atom() if self.opts.get("bitfields", False) else None
+                    if sa is not None and isinstance(sa, tuple) and sa[0] == "shr" and isinstance(sa[2], int):
+                        # (x >> k1) >> k = x >> (k1 + k)
+                        return self.int_binop(st, "Shr", lin_from_key(sa[1]), Lin.const(sa[2] + k), ty)
                     ma = mask_of_lin(a)
                     m = (ma >> k) if ma is not None else None
                     at = reg_atom(("shr", a.key(), k), alo >> k, ahi >> k, m)
@@ -1121,7 +1171,7 @@ class Interp:
         ks = sorted([a.key(), b.key()], key=repr)
         return Lin.atom(reg_atom(("mul", ks[0], ks[1]), lo, hi))
 
-    def bitand(self, a, b, ty):
+    def bitand(self, a, b, ty, st=None):
         lo_t, hi_t = INT_TYPES.get(ty, (None, None))
         if a.is_const() and b.is_const():
             return Lin.const(a.c & b.c)
@@ -1134,7 +1184,44 @@ class Interp:
             ma = mask_of_lin(a)
             if ma is not None and (ma & ~c) == 0:
                 return a
+            if st is not None and self.opts.get("bitfields", False):
+                if len(a.t) == 1 and a.c == 0:
+                    rm = self.refined_mask(st, a, ma)
+                    if rm is not None and (rm & ~c) == 0:
+                        return a
+                from .bits import and_fields, and_split
+                r = and_fields(self, st, a, c, ty)
+                if r is None and (len(a.t) > 1 or a.c):
+                    r = and_split(self, st, a, c, ty)
+                if r is not None:
+                    return r
             alo, ahi = static_bounds(a)
+            if st is not None and self.opts.get("bitfields", False) and alo is not None and alo >= 0 and c > 0 and \
+                    len(a.t) == 1 and a.c == 0:
+                # masks are normalised to low masks of shifted values:  x & (m << k) = ((x >> k) & m) << k, one
+                # term per run of the mask (definitional facts exist for low masks only)
+                runs = []
+                cc, pos = c, 0
+                while cc:
+                    if cc & 1:
+                        w = 0
+                        while cc & 1:
+                            w += 1
+                            cc >>= 1
+                        runs.append((pos, w))
+                        pos += w
+                    else:
+                        cc >>= 1
+                        pos += 1
+                if (len(runs) > 1 or runs[0][0] > 0) and len(runs) <= 4:
+                    r = Lin.const(0)
+                    for (k, w) in runs:
+                        q = self.int_binop(st, "Shr", a, Lin.const(k), ty) if k else a
+                        self.add_def_facts(st, q)
+                        part = self.bitand(q, Lin.const((1 << w) - 1), ty, st)
+                        self.add_def_facts(st, part)
+                        r = r + part.scale(1 << k)
+                    return r
             if alo is not None and alo >= 0 and ahi is not None and c > 0:
                 # mask keeping all bits from `lo` upwards (of the possible bits of a):  a & c = 2^lo * (a >> lo)
                 lo_bit = (c & -c).bit_length() - 1
@@ -1389,10 +1476,9 @@ class Interp:
                     # x & (2^k-1) = x mod 2^k :  x - and = 2^k * (x >> k)
                     if c & (c + 1) == 0:
                         kbits = c.bit_length()
-                        _, hi = static_bounds(x)
-                        q = reg_atom(("shr", a[1], kbits), 0, None if hi is None else hi >> kbits)
-                        st.add_ge0(x - Lin.atom(a) - Lin.atom(q).scale(c + 1))
-                        st.add_ge0(Lin.atom(q).scale(c + 1) - x + Lin.atom(a))
+                        q = self.int_binop(st, "Shr", x, Lin.const(kbits), "u64")
+                        st.add_ge0(x - Lin.atom(a) - q.scale(c + 1))
+                        st.add_ge0(q.scale(c + 1) - x + Lin.atom(a))
             elif k == "rem":
                 x = lin_from_key(a[1])
                 c = a[2]
@@ -1431,6 +1517,11 @@ class Interp:
                 if inrange or not narrowing:
                     return VInt(v.lin)
                 bits = INT_BITS[t]
+                if lo == 0 and self.opts.get("bitfields", False) and slo is not None and slo >= 0:
+                    # truncation of a non-negative value = masking
+                    r = self.bitand(v.lin, Lin.const((1 << bits) - 1), t, st)
+                    self.add_def_facts(st, r)
+                    return VInt(r)
                 m = mask_of_lin(v.lin)
                 mm = (m & ((1 << bits) - 1)) if (m is not None and lo == 0) else None
                 a = reg_atom(("trunc", v.lin.key(), t), lo, mm if mm is not None else hi, mm)
@@ -2001,6 +2092,11 @@ class Interp:
             nx = (-(f[1])).single_atom()
             if nx is not None and ATOM_LO.get(nx) == 0 and ATOM_HI.get(nx) == 1:
                 return Lin.const(1) - Lin.atom(nx)
+        if f[0] in ("ne", "eq") and len(f[1].t) == 1 and f[1].c == 0:
+            # (c * bit) != 0  is the bit itself
+            (xa, _k), = f[1].t.items()
+            if ATOM_LO.get(xa) == 0 and ATOM_HI.get(xa) == 1:
+                return Lin.atom(xa) if f[0] == "ne" else Lin.const(1) - Lin.atom(xa)
         if f[0] in ("ge", "eq", "ne"):
             # the same condition always maps to the same 0/1 atom
             c = reg_atom(("b2if", f[0], f[1].key()), 0, 1)
